@@ -156,7 +156,7 @@ def run_case(case, ctx):
     # -0.4 at V and 0 outside, explicitly
     with must_succeed('get_av'):
         v = float(base.get_av([0.55] * u.micron)[0])
-    if abs(v + 0.4) > 1e-12:
+    if not (abs(v + 0.4) <= 1e-12):
         fail('extinction pattern at 0.55 micron is %r, not -0.4' % v, 'c14:normalisation')
     out = [wav[0] * 0.5, wav[-1] * 2.]
     with must_succeed('get_av'):
@@ -194,7 +194,7 @@ def run_case(case, ctx):
     labels.add('same_numbers_other_unit')
     # a law object that was already queried gets a corrected wavelength grid (same length): answers follow the new grid
     if len(wav) >= 3:
-        moved = [wav[0]] + [w * 1.07 if wav[0] < w * 1.07 < wav[-1] and abs(w * 1.07 - 0.55) > 1e-9 else w for w in wav[1:-1]] + [wav[-1]]
+        moved = [wav[0]] + [w * 1.07 if wav[0] < w * 1.07 < wav[-1] and not (abs(w * 1.07 - 0.55) <= 1e-9) else w for w in wav[1:-1]] + [wav[-1]]
         moved = sorted(set(moved))
         if len(moved) == len(wav) and moved != wav:
             live = make_law(wav, chi, 'um', 'cm2/g')
